@@ -1,6 +1,7 @@
 package codegen
 
 import (
+	gotypes "go/types"
 	"math"
 	"os"
 	"path/filepath"
@@ -312,7 +313,7 @@ func (p *{{parser}}) _act(prod int32) any {
 			case {{ prod_index }}:
 				return p.{{ method.Name() }}(
 				{{- range param_index, param := method.Params }}
-				  _cast[{{ go_type(get_term_go_type(prod.Terms[param_index])) }}](p._stack.Peek({{ len(method.Params) - param_index - 1 }}).Sym),
+				  _cast[{{ go_type(get_term_go_type(prod.Terms[param_index])) }}](p._stack.Peek({{ len(method.Params) - param_index - 1 }}).Sym){{ if is_variadic(method) && param_index == len(method.Params) - 1 }}...{{ end }},
 				{{- end }}
 		    )
 	{{- else if generated == "one_or_more" }}
@@ -419,6 +420,9 @@ func (c *context) EmitParser() bool {
 	vars.Set("methods", c.ActionMethods)
 	vars.Set("rule_generated", RuleGenerated)
 	vars.Set("get_term_go_type", c.getTermGoType)
+	vars.Set("is_variadic", func(m *actionMethod) bool {
+		return m.Method.Type().(*gotypes.Signature).Variadic()
+	})
 	vars.Set("rule_go_types", c.RuleGoTypes)
 	vars.Set("emit_bounds", c.EmitBounds)
 	vars.Set("on_bounds_method", OnBoundsMethodName)
